@@ -45,7 +45,7 @@ def run(chk):
         fpath, tpath, n, control = job
         big = os.path.getsize(fpath) > 300000            # TSan on the collision fonts is an order of magnitude slower per segment
         args = ['--seed', chk.seed, '--font', fpath, '--texts', tpath, '--threads', n, '--reps', (3 if quick else (4 if big else 12)), '--jobs', (60 if quick else 200), '--control', control]
-        rc, out, err = R.run_one(exe, args, wall=3000)
+        rc, out, err = R.run_one(exe, args, wall=(600 if quick else 3000))
         return job, rc, out, err, args
 
     with ThreadPoolExecutor(3) as ex:
